@@ -13,6 +13,11 @@ import (
 )
 
 type gen struct {
+	// plain restricts expressions to forms whose text round trip is not affected by the
+	// expression-level findings (integral floats, unary minus on non-literals, AND/OR mixed
+	// without parentheses, bound parameters); used where the clause structure of statements
+	// and sources is the subject and expressions are covered by the expression parts.
+	plain  bool
 	r      *rand.Rand
 	params map[string]interface{} // bound parameters used by the text
 	feat   map[string]bool        // grammar features the text contains (coverage)
@@ -144,6 +149,9 @@ func (g *gen) integer() string {
 }
 
 func (g *gen) float() string {
+	if g.plain {
+		return strconv.Itoa(g.r.IntN(1000)) + "." + strconv.Itoa(1+g.r.IntN(8)) + "5"
+	}
 	switch g.r.IntN(14) {
 	case 0:
 		g.f("float:integral")
@@ -198,6 +206,9 @@ func (g *gen) duration() string {
 	case 2:
 		return g.pick("1ns", "0s", "1500ms", "90m", "36h", "14d", "52w")
 	case 3:
+		if g.plain {
+			return "7s"
+		}
 		g.f("duration:negative")
 		return "-" + strconv.Itoa(1+g.r.IntN(59)) + g.pick("s", "m", "h")
 	default:
@@ -235,6 +246,9 @@ func (g *gen) regex() string {
 }
 
 func (g *gen) boundParam() string {
+	if g.plain {
+		return g.varRef()
+	}
 	name := "p" + strconv.Itoa(len(g.params))
 	g.f("boundparam")
 	switch g.r.IntN(7) {
@@ -367,7 +381,7 @@ func (g *gen) arith(d int) piece {
 		}
 		return a
 	}
-	if g.p(0.1) {
+	if !g.plain && g.p(0.1) {
 		// unary minus / plus on a non-literal
 		x := g.arith(d - 1)
 		sign := "-"
@@ -491,8 +505,9 @@ func (g *gen) cond(d int) piece {
 	if r.prec < precCmp {
 		g.f(fmt.Sprintf("nest:R%d-in-%d", r.prec, prec))
 	}
-	ls := g.operand(l, l.prec < prec)
-	rs := g.operand(r, r.prec <= prec)
+	// plain: never rely on AND binding tighter than OR (the yacc grammar does not implement it)
+	ls := g.operand(l, l.prec < prec || (g.plain && l.prec < precCmp && l.prec != prec))
+	rs := g.operand(r, r.prec <= prec || (g.plain && r.prec < precCmp))
 	return piece{ls + g.sp() + g.kw(op) + g.sp() + rs, prec}
 }
 
